@@ -11,6 +11,7 @@ A case is `{"kind": "pipe", "gen_seed": …, "params": {…}}` and is rebuilt de
 run's PRNG)."""
 import os
 import random
+import re
 
 from . import sim
 from . import c05_ped as G
@@ -19,7 +20,9 @@ LAYOUTS = ["single", "single", "multi", "multi", "trio", "trio", "trio+single", 
 STYLES = ["random", "paired", "interleaved", "nested", "chain-gaps", "clusters", "deep", "none"]
 
 
-def gen_case(rng):
+def gen_case(rng, rephase=False):
+    """`rephase=True`: the VCF to be phased is the output of an EARLIER phasing run (see `_prephase`); the extra parameters are
+    derived from `gen_seed`, never from `rng`, so that the stream of plain cases (also used by C07) does not move"""
     layout = rng.choice(LAYOUTS)
     distrust = rng.random() < 0.2
     p = {
@@ -50,7 +53,77 @@ def gen_case(rng):
         "missing_gt": rng.choice([0.0, 0.0, 0.06]),
         "noise": rng.choice([0, 0, 0.04]),
     }
-    return {"kind": "pipe", "gen_seed": rng.randrange(1 << 40), "params": p}
+    case = {"kind": "pipe", "gen_seed": rng.randrange(1 << 40), "params": p}
+    if rephase:
+        r3 = random.Random(case["gen_seed"] ^ 0x7E5EED)
+        p["decor"] = True
+        p["pre_phase"] = "none"
+        p["kinds"] = r3.choice([["snv"], ["snv", "snv", "ins", "del"], ["snv", "ins", "del", "mnp"]])
+        p["only_snvs"] = r3.random() < (0.5 if len(p["kinds"]) > 1 else 0.15)
+        p["tag"] = r3.choice(["PS", "HP"])
+        p["rephase"] = {"enc": r3.choice(["PS", "PS", "HP", "HP", "mixed"]),
+                        "ids": r3.choice(["leftmost", "leftmost", "variant", "foreign", "mixed", "mixed"]),
+                        "frac": r3.choice([1.0, 0.85, 0.6]),
+                        "blocks": r3.choice([1, 1, 2, 3])}
+    return case
+
+
+def _prephase(rng, recs, contigs, samples, rp, keys, only_snvs):
+    """The input already carries the phasing of an earlier run, on EVERY record kind (also the kinds the new run skips:
+    multi-ALT, duplicate positions, no ALT, symbolic, non-SNVs under --only-snvs) and in either encoding (phased GT + PS,
+    or HP on an unphased GT).  Per (contig, sample) the records form 1-3 contiguous old phase sets whose ids are
+    `leftmost`: 1-based position of the block's first biallelic record (SNV under --only-snvs) (what an earlier whatshap run
+    writes: equals the id of a NEW phase set whenever the new leftmost variant is the same), `variant`: 1-based position of some variant of the
+    contig (earlier or later than the records carrying it), `foreign`: a number that is no variant position."""
+    for k in ("PS", "HP"):
+        if (rp["enc"] in (k, "mixed")) and k not in keys:
+            keys.append(k)          # the list object is the `format` of every record
+    for cc in contigs:
+        idx = [i for i, r in enumerate(recs) if r["chrom"] == cc["contig"]]
+        if not idx:
+            continue
+        vpos = sorted({v["pos"] + 1 for v in cc["variants"]})
+        for si, s in enumerate(samples):
+            nb = min(rp["blocks"], len(idx))
+            cuts = sorted(rng.sample(range(1, len(idx)), nb - 1)) if nb > 1 else []
+            bounds = [0] + cuts + [len(idx)]
+            for b in range(len(bounds) - 1):
+                members = idx[bounds[b]:bounds[b + 1]]
+                mode = rp["ids"] if rp["ids"] != "mixed" else rng.choice(["leftmost", "variant", "foreign"])
+                if mode == "leftmost":
+                    first = [i for i in members if len(recs[i]["alts"]) == 1 and
+                             (not only_snvs or len(recs[i]["ref"]) == len(recs[i]["alts"][0]) == 1)]
+                    block = recs[(first or members)[0]]["pos"] + 1
+                elif mode == "variant":
+                    block = rng.choice(vpos)
+                else:
+                    block = rng.choice([x for x in (1, 7, vpos[0] + 1, vpos[-1] + 13, 100000 + vpos[0]) if x not in vpos])
+                for i in members:
+                    r = recs[i]
+                    call = r["calls"][si]
+                    if rng.random() >= rp["frac"]:
+                        continue
+                    na = len(r["alts"])
+                    g = re.split(r"[/|]", call.get("GT", "./."))
+                    if na == 0:
+                        al = ["0", "0"]
+                    elif na >= 2:
+                        al = rng.choice([["1", "2"], ["0", "2"], ["2", "1"], ["0", "1"]])
+                    elif "." in g or len(g) != 2:
+                        continue
+                    elif r.get("_decor"):
+                        al = rng.choice([["0", "1"], ["1", "0"], ["0", "1"], ["1", "1"]])
+                    else:
+                        al = g if g[0] == g[1] or rng.random() < 0.5 else g[::-1]    # a variant of the run: genotype kept
+                    enc = rp["enc"] if rp["enc"] != "mixed" else rng.choice(["PS", "HP"])
+                    call.pop("PS", None); call.pop("HP", None)
+                    if enc == "PS":
+                        call["GT"] = "|".join(al); call["PS"] = str(block)
+                    else:
+                        order = rng.choice([(1, 2), (2, 1)])
+                        call["GT"] = "/".join(sorted(al)); call["HP"] = ",".join(f"{block}-{h}" for h in order)
+    for r in recs:
+        r.pop("_decor", None)
 
 
 def _layout_samples(layout):
@@ -148,6 +221,7 @@ def scenario(case):
                         r["name"] = a["name"]
     # ---- VCF records
     recs = []
+    rp = p.get("rephase")
     pre = p["pre_phase"]
     keys = ["GT"] + (["PS"] if (pre == "PS" or p["decor"]) else []) + (["HP"] if pre == "HP" else [])
     for cc in contigs:
@@ -163,7 +237,7 @@ def scenario(case):
                 elif g in ("0/1",) and pre == "HP" and rng.random() < 0.7:
                     call["HP"] = rng.choice([f"{block}-1,{block}-2", f"{block}-2,{block}-1"])
                 calls.append(call)
-            if p["decor"] and rng.random() < 0.1:
+            if p["decor"] and rng.random() < (0.25 if rp else 0.1):
                 ref0 = v["ref"][0]
                 alts0 = [x for x in "ACGT" if x != ref0][:2]
                 recs.append(dict(chrom=cc["contig"], pos=v["pos"], ref=ref0, alts=alts0, format=keys,
@@ -171,7 +245,7 @@ def scenario(case):
             recs.append(dict(chrom=cc["contig"], pos=v["pos"], ref=v["ref"], alts=[v["alt"]], format=keys, calls=calls))
             if not p["decor"]:
                 continue
-            kind = rng.choice(["dup", "multi", "sym", "noalt", "none", "none", "none"])
+            kind = rng.choice(["dup", "multi", "sym", "noalt", "none"] + ([] if rp else ["none", "none"]))
             q = v["pos"] + len(v["ref"]) + 3
             if kind == "dup":
                 alt2 = rng.choice([x for x in "ACGT" if x != v["ref"][0] and x != v["alt"][0]])
@@ -188,6 +262,12 @@ def scenario(case):
                 elif kind == "noalt":
                     recs.append(dict(chrom=cc["contig"], pos=q, ref=ref, alts=[], format=keys,
                                      calls=[{"GT": rng.choice(["0/0", "0|0", "./."]), "PS": "."} for _ in samples]))
+    if rp:
+        main = {(cc["contig"], v["pos"], v["ref"], v["alt"]) for cc in contigs for v in cc["variants"]}
+        for r in recs:
+            if len(r["alts"]) != 1 or (r["chrom"], r["pos"], r["ref"], r["alts"][0]) not in main:
+                r["_decor"] = True
+        _prephase(random.Random(case["gen_seed"] ^ 0x9E0), recs, contigs, samples, rp, keys, p["only_snvs"])
     # ---- options
     r2 = random.Random(case["gen_seed"] ^ 0xC03)
     names = [cc["contig"] for cc in contigs]
